@@ -90,6 +90,42 @@ def run(ctx):
                   kind="WIRE/GUARD") as r:
         f = facts.fn(GIB + "::add_line")
         eb = ExprBuilder(f)
+        # trailing whitespace: "ignored unless quoted with a backslash". Which space is quoted can only be told from the text
+        # in front of the cut — i.e. from what trimming left — not from the last two bytes of the raw line (`foo\  ` ends
+        # in two spaces yet keeps one; `bar\\ ` ends in backslash-space yet keeps none)
+        TRIM = ("str::trim_right", "str::trim_end", "core::str::<impl str>::trim_right", "core::str::<impl str>::trim_end")
+        trims = [c for c in f.calls() if c.path.endswith(("::trim_right", "::trim_end"))]
+        if not trims:
+            r.bad("trailing-space", "anchor-missing: add_line no longer trims trailing whitespace", fn=f)
+        else:
+            def on_trimmed(e):
+                return any(x.k == "call" and x[1].endswith(("::trim_right", "::trim_end")) for x in walk(e))
+
+            def is_bs(c):
+                return c is not None and (c.get("val") == 92 or "\\" in str(c.get("str", "")))
+
+            def about_backslash(e):
+                for x in walk(e):
+                    if x.k == "const" and ((x[1] == 92) or (x[2] and "\\" in str(x[2]))):
+                        return True
+                    if x.k == "closure" and x[1] in facts.fns:
+                        g = facts.fns[x[1]]
+                        for _, _, st in g.stmts():
+                            if st["k"] == "assign" and any(is_bs(op_const(o)) for o in [st["rv"].get("a", {}), st["rv"].get("b", {})] if isinstance(o, dict)):
+                                return True
+                return False
+            # flow-sensitive: the test runs after the trim (the φ of `line` alone would not tell)
+            quoted = [sw_ for sw_ in cond_switches(f, lambda e: on_trimmed(e) and about_backslash(e) and
+                                                   not any(x.k == "call" and x[1].endswith("::starts_with") and
+                                                           any(y.k == "const" and y[2] and "\\" in str(y[2]) for y in walk(x)) for x in walk(e)), eb)
+                      if any(C.dominates(f, t.bb, sw_[0]) and t.bb != sw_[0] for t in trims)]
+            if quoted:
+                r.ok("trailing-space", "the quoted-space test reads the text that trimming left", fn=f)
+            else:
+                r.bad("trailing-space", "add_line decides from the raw end of the line whether a trailing space is quoted: `foo\\  ` "
+                      "(quoted space, then a plain one) loses both and is rejected as a dangling escape, `bar\\\\ ` (quoted backslash, "
+                      "then a plain space) keeps the space; git ignores `foo ` and `bar\\` for them", fn=f, loc=trims[0].loc,
+                      construct="trailing-space")
         # nothing left after the `!` / `/` prefixes and the trailing `/` were stripped ⇒ the line is skipped. Otherwise the
         # empty glob gets its `**/` prefix and matches (or, for `!`, re-includes) every path below the ignore file.
         empties = cond_switches(f, lambda e: is_call(e, "str::is_empty"), eb)
